@@ -9,16 +9,17 @@ Definition stk_empty : stk := mk_stk vec_empty.
 
 Section WithElemSize.
 Variable esz : N.
+(* the stack of a script lives on allocator instance 0 *)
 
 Definition stk_top (s : stk) : res V := back (container s).
 (* pop(): _container.pop(); the returned element is discarded *)
 Definition stk_pop (s : stk) : res (stk * list ev) :=
   bind (pop (container s)) (fun '(v, _, e) => Ok (mk_stk v, e)).
 Definition stk_push (nb : nat) (x : V) (s : stk) : res (stk * nat * list ev) :=
-  bind (push esz nb x (container s)) (fun '(v, nb1, e) => Ok (mk_stk v, nb1, e)).
+  bind (push esz 0 nb x (container s)) (fun '(v, nb1, e) => Ok (mk_stk v, nb1, e)).
 Definition stk_size (s : stk) : nat := size (container s).
 Definition stk_is_empty (s : stk) : bool := empty (container s).
-Definition stk_destruct (s : stk) : res (list ev) := destruct (container s).
+Definition stk_destruct (s : stk) : res (list ev) := destruct 0 (container s).
 
 Inductive kop := KPush (x : V) | KEmplace (x : V) | KPop | KTop.
 
